@@ -6105,13 +6105,23 @@ class CodegenCtx:
                 if unconditional_end_transition.target in self.dfa.accepting_states:
                     result.add(f"return {self.program_name.upper()}_DONE;")
                 else:
-                    result.add(f"return {self.program_name.upper()}_FAIL;")
+                    result += self._generate_end_fail()
                 return result.value()
 
         if state in self.dfa.accepting_states:
             result.add(f"return {self.program_name.upper()}_DONE;")
         else:
-            result.add(f"return {self.program_name.upper()}_FAIL;")
+            result += self._generate_end_fail()
+        return result.value()
+
+    def _generate_end_fail(self):
+        """
+        Input ended somewhere it may not: report FAIL, and stay failed if the parser is fed or ended again.
+        """
+        result = Outputter()
+        if self.generic_fail_state in self.dfa.states:
+            result.add(f"state->state = {self.dfa.states.index(self.generic_fail_state)};")
+        result.add(f"return {self.program_name.upper()}_FAIL;")
         return result.value()
     
     def _generate_end_implementation(self):
